@@ -311,13 +311,13 @@ func runBitsFn(c *core.Ctx, pool *gjs.Pool) bool {
 		c.Infra(fmt.Errorf("reference toolchain rejected the math/bits table program: %s", b.NativeErr))
 		return false
 	}
-	if len(b.Native.Lines) != total || b.Native.End != "exit" {
+	if len(b.Native.Lines) != total || !endedOK(b.Native) {
 		c.Infra(fmt.Errorf("native math/bits program printed %d lines, want %d (end=%s %s)", len(b.Native.Lines), total, b.Native.End, b.Native.Msg))
 		return false
 	}
 	c.Add("programs", 2)
 	col := newCollector()
-	if len(b.JS.Lines) != total || b.JS.End != "exit" {
+	if len(b.JS.Lines) != total || !endedOK(b.JS) {
 		col.fail(&failure{group: "bits-js-abort", keys: []string{"bits_program_aborted"},
 			summary: fmt.Sprintf("the math/bits table program compiled by GopherJS printed %d lines, want %d; end=%s msg=%s", len(b.JS.Lines), total, b.JS.End, b.JS.Msg), files: prog.ReplayFiles("prog")})
 		col.flush(c)
